@@ -308,3 +308,53 @@ Theorem C01_no_mutable_package_state :
   StateInventory.rg_mutated g = false /\ StateInventory.rg_escapes g = false.
 Proof. apply StateInventory.pkg_state_ok_spec. vm_compute. reflexivity. Qed.
 Print Assumptions C01_no_mutable_package_state.
+
+(** * text entry points (round 8): NewTxFromString, Tx.String and the JSON [hex] member (model/TxText.v)
+
+    Every way of handing TEXT to the parser accepts exactly the hex text of bytes that are exactly one transaction -
+    the acceptance rule of NewTxFromBytes on the decoded bytes, nothing weaker. *)
+From Coq Require String.
+From GoBT Require lib.Hex model.TxText proofs.TxTextProofs.
+Theorem C01_from_string_iff : forall s p,
+  TxText.tx_from_string s = ROk p <-> exists b, Hex.hexdecode s = Some b /\ read_tx b = POk p (lenN b) [].
+Proof. exact TxTextProofs.from_string_iff. Qed.
+Print Assumptions C01_from_string_iff.
+
+(** nothing may follow the transaction in the text: an accepted text followed by ANY non-empty text (more hex digits,
+    a second transaction, a dangling digit, characters that are not hex digits) is rejected *)
+Theorem C01_from_string_trailing_rejected : forall s p suf,
+  TxText.tx_from_string s = ROk p -> suf <> String.EmptyString ->
+  TxText.tx_from_string (String.append s suf) = RErr.
+Proof. exact TxTextProofs.from_string_trailing_rejected. Qed.
+Print Assumptions C01_from_string_trailing_rejected.
+
+(** Tx.String then NewTxFromString is the identity on the wire fields; likewise the hex text of the extended form *)
+Theorem C01_from_string_roundtrip_std : forall t, wf_tx t -> ~ ambiguous t ->
+  TxText.tx_from_string (TxText.tx_string t) = ROk (mkParsed (strip_tx t) false true).
+Proof. exact TxTextProofs.from_string_roundtrip_std. Qed.
+Print Assumptions C01_from_string_roundtrip_std.
+Theorem C01_from_string_roundtrip_ext : forall t, wf_tx t ->
+  TxText.tx_from_string (Hex.hex_of (tx_bytes true t)) = ROk (mkParsed (norm_tx t) true true).
+Proof. exact TxTextProofs.from_string_roundtrip_ext. Qed.
+Print Assumptions C01_from_string_roundtrip_ext.
+
+(** an accepted text with minimal length prefixes decodes to the re-serialisation in the format it arrived in *)
+Theorem C01_from_string_canonical : forall s p, TxText.tx_from_string s = ROk p -> p_min p = true ->
+  Hex.hexdecode s = Some (tx_bytes (p_ext p) (p_tx p)).
+Proof. exact TxTextProofs.from_string_canonical. Qed.
+Print Assumptions C01_from_string_canonical.
+
+Theorem C01_from_string_total : forall s, TxText.tx_from_string s <> RFuel.
+Proof. exact TxTextProofs.from_string_total. Qed.
+Print Assumptions C01_from_string_total.
+
+(** non-vacuity: an accepted text, and the same text with one more character / one more byte / a second copy *)
+Import Coq.Strings.String.
+Example C01_from_string_accepts :
+  TxText.tx_from_string "01000000000007000000"%string = ROk (mkParsed (mkTx 1 [] [] 7) false true).
+Proof. vm_compute. reflexivity. Qed.
+Example C01_from_string_rejects_what_follows :
+  TxText.tx_from_string "010000000000070000000"%string = RErr /\ TxText.tx_from_string "0100000000000700000000"%string = RErr /\
+  TxText.tx_from_string "01000000000007000000zz"%string = RErr /\
+  TxText.tx_from_string "0100000000000700000001000000000007000000"%string = RErr.
+Proof. vm_compute. repeat split. Qed.
